@@ -252,6 +252,63 @@ def rows(S):
 
     out.append(Row("isotropic: from_mean_and_std(std) must be scalars", "isotropic scalar std", iso_std, "ValueError", ["bad0", "bad1"], fn_suffix="IsotropicNormal.from_mean_and_std"))
 
+
+    # --- rows added after the audit of the unchanged tree (hunter H5): wrong-length / wrong-shape containers that used to be broadcast silently
+    # (a) std container that does not match the mean container (dense, block-diagonal; the isotropic row above covers its scalar layout)
+    for fam_, ncls_ in (("dense", DENSE + ".DenseNormal"), ("blockdiag", BLOCK + ".BlockDiagNormal")):
+        def sm(it, n=ncls_):
+            cv = it.class_value(n)
+            call(it, it.getattr(cv, "from_mean_and_std", None), mean2(), [arr("bad0"), arr("bad1")])
+
+        out.append(Row(f"{fam_}: from_mean_and_std(std) does not match the mean container", "Taylor-coefficient containers", sm, "ValueError", ["bad0", "bad1"], sibling="std-matches-mean",
+                       cond_pred=lambda c: c.op != "try_fails" and {"m0", "m1"} & T.atoms_of(c) and {"bad0", "bad1"} & T.atoms_of(c)))
+
+    # (b) zeroth-order constraint on a state with fewer coefficients than the ODE constrains
+    for qual_, fam_ in ((DENSE + ".DenseOdeTs0", "dense"), (ISO + ".IsotropicOdeTs0", "isotropic"), (BLOCK + ".BlockDiagOdeTs0", "blockdiag")):
+        def ts0_short(it, q=qual_, fam=fam_):
+            from .c11 import _vfield_list
+
+            ode = it.instantiate(it.class_value(PROBLEMS + ".JetOde"), [_vfield_list()], dict(jacobian=A("jac"), num_tcoeffs_in_args=2, tcoeff_indices_output=[2]), "<harness>")
+            lin = it.instantiate(it.class_value(q), [], {"ode": ode}, "<harness>")
+            ncls = {"dense": DENSE + ".DenseNormal", "isotropic": ISO + ".IsotropicNormal", "blockdiag": BLOCK + ".BlockDiagNormal"}[fam]
+            rv = it.instantiate(it.class_value(ncls), [arr("mean_flat"), arr("chol"), A("tf")], {}, "<harness>")
+            if fam == "dense":
+                # the dense selector un-flattens with the real tree_flatten: build the variable from two coefficients
+                rv = call(it, it.getattr(it.class_value(ncls), "from_mean_and_std", None), [arr("c0"), arr("c1")], [arr("s0"), arr("s1")])
+            # a state with two coefficients only (u, u'): nothing to constrain for u'' = f(u, u')
+            it.method_hooks[ncls + "._mean_batched"] = lambda itp, fn, a, kw, site: [arr("c0"), arr("c1")]
+            it.method_hooks[ncls.rsplit(".", 1)[0] + "." + {"dense": "DenseTreeFlatten", "isotropic": "IsotropicTreeFlatten", "blockdiag": "BlockDiagTreeFlatten"}[fam] + ".unflatten_array"] = lambda itp, fn, a, kw, site: [arr("c0"), arr("c1")]
+            it.ndim_oracle = lambda t_: 2 if (isinstance(t_, T.Term) and t_.op == "jac_apply") else None
+            out_ = call(it, method(it, lin, "linearize"), rv, A("state"), damp=A("damp"), t=A("t"))
+            # the dense selector is a closure that is only traced by jacrev: evaluate it once like the trace would
+            from ..interp import WrappedFn
+            for t_ in T.subterms(out_):
+                if isinstance(t_, T.Term) and t_.op in ("jac_apply", "vmap_apply"):
+                    w = t_.args[0]
+                    while isinstance(w, WrappedFn) and isinstance(w.fn, WrappedFn):
+                        w = w.fn
+                    if isinstance(w, WrappedFn):
+                        it.call(w.fn, [arr("probe")], {}, "<harness>")
+
+        out.append(Row(f"{fam_}: TS0 constraint on a state with too few Taylor coefficients", "constraint use", ts0_short, "IndexError", [], mode="raise", sibling="ts0-too-few"))
+
+    # (c) dense losses / log-densities: data of the wrong length
+    def dense_logpdf_len(it):
+        rv = it.instantiate(it.class_value(DENSE + ".DenseNormal"), [arr("mean_flat"), arr("chol"), A("tf")], {}, "<harness>")
+        call(it, method(it, rv, "logpdf_flat"), arr("bad"))
+
+    out.append(Row("dense: logpdf of data whose shape differs from the mean", "losses", dense_logpdf_len, "ValueError", ["bad"], cond_pred=lambda c: "mean_flat" in T.atoms_of(c)))
+
+    # (d) dense exponential prior: drift whose output does not have the state's shape
+    def expo_drift(it):
+        ssm = mk_ssm(it, DENSE + ".state_space_model_dense")
+        ode = it.instantiate(it.class_value(PROBLEMS + ".JetOdeAutonomous"), [A("bad")], dict(jacobian=A("jac"), num_tcoeffs_in_args=2, tcoeff_indices_output=[2]), "<harness>")
+        call(it, method(it, ssm, "prior_exponential_diffuse"), ode, mean2(), std2())
+
+    # the guard compares the shape of the drift's Jacobian (jac_apply of the flattened drift) with the shape derived from the mean container
+    out.append(Row("dense: exponential prior whose drift output does not match the state", "exponential priors", expo_drift, "ValueError", ["m0"],
+                   cond_pred=lambda c: any(t_.op == "jac_apply" for t_ in T.subterms(c)) and any(t_.op == "attr" and t_.args[1] == "shape" for t_ in T.subterms(c))))
+
     # matfree constraint constructor
     def mf(it):
         ssm = mk_ssm(it, MATFREE + ".state_space_model_matfree")
@@ -405,6 +462,14 @@ def rows(S):
 
     out.append(Row("residual error estimate whose constraint shape differs from the state", "solvers", err_shape, "ValueError", ["bad_fx"]))
 
+    def one_output(c):
+        # corruption: the constraint has ONE output while the state has d > 1 components (error.shape == (1,), reference.shape == (d,))
+        if c.op == "in" and isinstance(c.args[1], (list, tuple)) and any(x == (1,) for x in c.args[1]):
+            return True
+        return None
+
+    out.append(Row("residual error estimate of a single-output constraint for a d-dimensional (dense / block-diagonal) state", "solvers", err_shape, "ValueError", ["bad_fx"], assume=one_output))
+
     # kernels
     def revert_rank(it):
         f = it.function_value(f"{CHOL}.revert_conditional")
@@ -443,6 +508,8 @@ def eval_row(chk, S, r1, row):
     S.absorb(it)
     if row.mode == "raise":
         ok = raised is not None and getattr(raised.exc, "cls_name", "") == row.exc
+        if raised is None and detail:
+            ok = None  # the analysis stopped before the end of the run: "no exception" is not established
         r1.require(ok, row.id, f"raises {row.exc}", f"expected {row.exc}; got {'no exception' if raised is None else raised.exc} {detail}", raised.site if raised else None)
         return ok
     if raised is not None:
